@@ -1426,12 +1426,9 @@ func (r *Runtime) RunScript(name, src string) (Value, error) {
 }
 
 func isUncatchableException(e error) bool {
-	for ; e != nil; e = errors.Unwrap(e) {
-		if _, ok := e.(uncatchableException); ok {
-			return true
-		}
-	}
-	return false
+	// errors.As also descends into errors.Join / multi-%w trees (Unwrap() []error), errors.Unwrap does not.
+	var u uncatchableException
+	return errors.As(e, &u)
 }
 
 func asUncatchableException(v interface{}) error {
